@@ -21,7 +21,7 @@ MANIFEST = dict(
     technique="Lean 4 proof (recursive model of each loop = closed-form specification, by induction on the outcome list / condition sequence / count) + differential correspondence",
     ref='5/C15')
 
-ALL_FIELDS = ('trace', 'log', 'attempts', 'live', 'evals', 'prompt', 'decoy')
+ALL_FIELDS = ('trace', 'log', 'attempts', 'live', 'evals', 'prompt', 'decoy', 'again')
 
 
 def proj_resub(d):
